@@ -21,6 +21,13 @@ Definition mA (m : mtch) := fst (fst m).
 Definition mB (m : mtch) := snd (fst m).
 Definition mSize (m : mtch) := snd m.
 
+Fixpoint list_eqb {X} (e : X -> X -> bool) (l1 l2 : list X) : bool :=
+  match l1, l2 with
+  | [], [] => true
+  | x :: r1, y :: r2 => e x y && list_eqb e r1 r2
+  | _, _ => false
+  end.
+
 (* ------------------------------------------------------------------ sequences *)
 Section Seq.
   Variable T : Type.
@@ -308,6 +315,57 @@ Section Seq.
   (* a hunk changes something *)
   Definition has_change (h : hunk) : bool :=
     existsb (fun kl => match fst kl with Ctx => false | _ => true end) (hBody h).
+
+  (* ---------- contracts of the inner functions as decidable predicates
+     (evaluated by the driver on what the implementation's functions return) ---------- *)
+
+  (* findLongestMatch: inside the window, equal slices ... *)
+  Definition flm_okb (a b : list T) (alo ahi blo bhi : nat) (m : mtch) : bool :=
+    (alo <=? mA m) && (mA m + mSize m <=? ahi) && (blo <=? mB m) && (mB m + mSize m <=? bhi)
+    && list_eqb eqb (sub a (mA m) (mSize m)) (sub b (mB m) (mSize m)).
+
+  Fixpoint common_len (x y : list T) : nat :=
+    match x, y with
+    | u :: x', v :: y' => if eqb u v then S (common_len x' y') else 0
+    | _, _ => 0
+    end.
+
+  (* ... and no common run inside the window is longer *)
+  Definition flm_maxb (a b : list T) (alo ahi blo bhi : nat) (m : mtch) : bool :=
+    forallb (fun i =>
+      forallb (fun j => common_len (sub a i (ahi - i)) (sub b j (bhi - j)) <=? mSize m)
+              (seq blo (bhi - blo)))
+            (seq alo (ahi - alo)).
+
+  (* matchingBlocks (with the sentinel): non-empty equal slices in increasing order, then (|a|,|b|,0) *)
+  Fixpoint blocks_okb (a b : list T) (alo blo : nat) (l : list mtch) : bool :=
+    match l with
+    | [] => false
+    | [s] => (mA s =? List.length a) && (mB s =? List.length b) && (mSize s =? 0)
+             && (alo <=? List.length a) && (blo <=? List.length b)
+    | m :: l' =>
+        (alo <=? mA m) && (blo <=? mB m) && (0 <? mSize m)
+        && (mA m + mSize m <=? List.length a) && (mB m + mSize m <=? List.length b)
+        && list_eqb eqb (sub a (mA m) (mSize m)) (sub b (mB m) (mSize m))
+        && blocks_okb a b (mA m + mSize m) (mB m + mSize m) l'
+    end.
+
+  (* GetOpCodes: contiguous tiling of both texts; what each tag promises *)
+  Definition op_okb (a b : list T) (c : opcode) : bool :=
+    (oI1 c <=? oI2 c) && (oI2 c <=? List.length a) && (oJ1 c <=? oJ2 c) && (oJ2 c <=? List.length b)
+    && match oTag c with
+       | TE => (oI2 c - oI1 c =? oJ2 c - oJ1 c)
+               && list_eqb eqb (sub a (oI1 c) (oI2 c - oI1 c)) (sub b (oJ1 c) (oJ2 c - oJ1 c))
+       | TD => (oI1 c <? oI2 c) && (oJ1 c =? oJ2 c)
+       | TI => (oI1 c =? oI2 c) && (oJ1 c <? oJ2 c)
+       | TR => (oI1 c <? oI2 c) && (oJ1 c <? oJ2 c)
+       end.
+
+  Fixpoint tiles_okb (a b : list T) (i j : nat) (cs : list opcode) (I J : nat) : bool :=
+    match cs with
+    | [] => (i =? I) && (j =? J)
+    | c :: r => (oI1 c =? i) && (oJ1 c =? j) && op_okb a b c && tiles_okb a b (oI2 c) (oJ2 c) r I J
+    end.
 End Seq.
 
 Arguments sub {T}.
@@ -335,6 +393,12 @@ Arguments get_opcodes {T}.
 Arguments grouped_opcodes {T}.
 Arguments hunk_of_group {T}.
 Arguments code_lines {T}.
+Arguments flm_okb {T}.
+Arguments flm_maxb {T}.
+Arguments common_len {T}.
+Arguments blocks_okb {T}.
+Arguments op_okb {T}.
+Arguments tiles_okb {T}.
 
 (* ------------------------------------------------------------------ text *)
 Local Open Scope string_scope.
@@ -529,18 +593,19 @@ Definition lines_of (s : string) : list string := split_lines (trim_space s).
 Definition spec_empty_iff (have want out : string) : bool :=
   Bool.eqb (String.eqb out "") (String.eqb (trim_space have) (trim_space want)).
 
-Fixpoint list_eqb {X} (e : X -> X -> bool) (l1 l2 : list X) : bool :=
-  match l1, l2 with
-  | [], [] => true
-  | x :: r1, y :: r2 => e x y && list_eqb e r1 r2
-  | _, _ => false
-  end.
-
 Definition spec_patch (have want : string) (hs : list (hunk string)) : bool :=
   match apply_unified String.eqb hs (lines_of have) with
   | Some r => list_eqb String.eqb r (lines_of want)
   | None => false
   end.
+(* the same on line lists (makeUnifiedDiff called directly) *)
+Definition spec_patch_lines (a b : list string) (hs : list (hunk string)) : bool :=
+  match apply_unified String.eqb hs a with
+  | Some r => list_eqb String.eqb r b
+  | None => false
+  end.
+Definition spec_empty_iff_lines (a b : list string) (out : string) : bool :=
+  Bool.eqb (String.eqb out "") (list_eqb String.eqb a b).
 Definition spec_headers (hs : list (hunk string)) : bool := headers_ok hs.
 Definition spec_context (hs : list (hunk string)) : bool := context_ok 3 hs.
 Definition spec_changes (hs : list (hunk string)) : bool := forallb has_change hs.
